@@ -38,17 +38,18 @@ def Corr (w : World U) (σ : Sig U) : Prop := w.ds = σ.ds ∧ w.rng = σ.rng
 
 namespace Sig
 
-/-- `wrapUtility` of a (possibly anonymous) head. -/
+/-- `wrapUtility` of a (possibly anonymous) head; an anonymous head answers the default `Utility{1}`
+(before the repair of N5 it answered `Utility{}` = 0). -/
 def headVal (σ : Sig U) (h : Bool) : U × Sig U :=
-  if h then (utilAnswer (σ.ds.headD []), { σ with ds := σ.ds.tail }) else (zero, σ)
+  if h then (utilAnswer (σ.ds.headD []), { σ with ds := σ.ds.tail }) else (one, σ)
 
 /-- `wrapRank`. -/
 def headRk (σ : Sig U) (h : Bool) : Int × Sig U :=
   if h then (rankAnswer (σ.ds.headD []), { σ with ds := σ.ds.tail }) else (0, σ)
 
-/-- `wrapSelect`. -/
+/-- `wrapSelect`; an anonymous head answers the default prong 0. -/
 def headSel (σ : Sig U) (h : Bool) : Option Nat × Sig U :=
-  if h then (selectAnswer (σ.ds.headD []), { σ with ds := σ.ds.tail }) else (none, σ)
+  if h then (selectAnswer (σ.ds.headD []), { σ with ds := σ.ds.tail }) else (some 0, σ)
 
 /-- `resolveRandom`: one number of the stream, one call counted. -/
 def resolve (σ : Sig U) (utils : List U) (sum : U) (ranks : List Int) (top : Int) : Option Nat × Sig U :=
